@@ -265,7 +265,10 @@ func c03tRun(in c03tInput) (msg, key string, infra bool, cases int) {
 				nctx, ncancel := context.WithCancel(context.Background())
 				wd := time.AfterFunc(60*time.Second, ncancel)
 				// (this context has no deadline: whatever deadline an earlier operation armed on the transport is over)
-				err := conn.Call(nctx, "t.r.Echo", nil, &outn)
+				recvn, err := conn.Send(nctx, "t.r.Echo", nil, 0)
+				if err == nil {
+					_, err = recvn(nctx, &outn)
+				}
 				wd.Stop()
 				ncancel()
 				cases++
